@@ -280,7 +280,13 @@ pub fn f5_look(rng: &mut Rng, name: &str) -> Def {
         let look = rng.pick_str(&["$", "\\z", "(?-u:\\b)", "(?m:$)", "(?-u:\\b{end})", "(?-u:\\B)"]);
         let p1 = rng.range(1, 5);
         def.push(Pat::regex(&base, 0).prio(p1));
-        def.push(Pat::regex(&format!("(?:{base}){look}"), 0).prio(p1 + rng.range(1, 9)));
+        if rng.chance(1, 3) {
+            // the anchored pattern continues a little further than the plain one
+            let more = rng.pick_str(&["b", "x", " if", "[0-9]", "-"]);
+            def.push(Pat::regex(&format!("(?:{base}){more}{look}"), 0).prio(p1 + rng.range(1, 9)));
+        } else {
+            def.push(Pat::regex(&format!("(?:{base}){look}"), 0).prio(p1 + rng.range(1, 9)));
+        }
         if rng.chance(1, 2) {
             // a sibling that shares the whole text and continues exactly where the assertion fails
             let cont = rng.pick_str(&["(?-u:\\w)+!", "[a-z0-9]+;", ".x", "[^ ]+\\.", "(?s-u:.)!"]);
@@ -457,8 +463,9 @@ pub fn f11_literal(rng: &mut Rng, name: &str) -> Def {
     let lit = if bytes_lit {
         let len = rng.range(1, 4);
         let data: Vec<u8> = (0..len)
-            .map(|_| match rng.below(4) {
+            .map(|_| match rng.below(5) {
                 0 => rng.byte(),
+                4 => *rng.pick(&[0x80u8, 0x7F, 0xFF, 0xC0, 0xBF, 0x00, 0x81]),
                 1 => *rng.pick(b"\\.+*?()|[]{}^$#&-~"),
                 2 => *rng.pick(b"aZkKsS"),
                 _ => 0x80 | (rng.byte() & 0x7F),
@@ -552,6 +559,15 @@ pub fn f8_reject(rng: &mut Rng, name: &str) -> (Def, &'static str) {
             cat = "lookbehind";
         }
         3 => {
+            if rng.chance(1, 4) {
+                // the same kinds of unsupported syntax written as byte-string patterns
+                let t: &[u8] = *rng.pick(&[&br"(a|b)x\1"[..], &br#"(["'])[a-z]*\1"#[..], &br"a\7"[..], &br"\0"[..], &br"a(?=b)"[..], &br"\bfoo"[..], &b"(?<n>a)\\k<n>"[..]]);
+                def.utf8 = rng.chance(1, 2);
+                def.push(Pat::new(PatKind::Regex, Lit::b(t), 0));
+                def.push(Pat::token("zz", 0));
+                def.normalize();
+                return (def, "unsupported");
+            }
             let t = rng.pick_str(&["\\bfoo", "foo\\b", "(?<n>a)\\k<n>", "a(?=b)", "a(?!b)", "(?<=a)b", "\\1", "a{2,1}", "[z-a]", "(", "a)", "[a", "\\p{Nope}", "(?P<n>a", "*a", "a**", "\\8"]);
             def.push(Pat::regex(t, 0));
             cat = "unsupported";
@@ -566,8 +582,26 @@ pub fn f8_reject(rng: &mut Rng, name: &str) -> (Def, &'static str) {
             cat = "non-utf8-in-str-mode";
         }
         6 => {
-            let data: &[u8] = *rng.pick(&[&b"\xFF"[..], &b"a\x80"[..], &b"\xC3"[..], &b"\xE2\x82"[..]]);
-            def.push(Pat::new(PatKind::Token, Lit::b(data), 0));
+            let data: &[u8] = *rng.pick(&[&b"\xFF"[..], &b"a\x80"[..], &b"\xC3"[..], &b"\xE2\x82"[..], &b"\x80"[..], &b"k\x80k"[..], &b"\xBF"[..], &b"a\xC0"[..]]);
+            // as a token, a case-insensitive token, a regex or a skip
+            let mut p = match rng.below(4) {
+                0 => Pat::new(PatKind::Token, Lit::b(data), 0),
+                1 => {
+                    let mut p = Pat::new(PatKind::Token, Lit::b(data), 0);
+                    p.ignore_case = true;
+                    p
+                }
+                2 => Pat::new(PatKind::Regex, Lit::b(data), 0),
+                _ => Pat::new(PatKind::Skip, Lit::b(data), 0),
+            };
+            if rng.chance(1, 3) {
+                p.priority = Some(rng.range(1, 20));
+            }
+            let is_skip = p.kind == PatKind::Skip;
+            def.push(p);
+            if is_skip {
+                def.push(Pat::token("zz", 0));
+            }
             cat = "non-utf8-in-str-mode";
         }
         7 => {
@@ -720,6 +754,10 @@ pub fn f7_curated() -> Vec<Def> {
     // anchored variant of a text next to its unanchored variant
     mk(true, vec![Pat::token("end", 0), Pat::regex("end$", 0).prio(10), Pat::token(";", 0)]);
     mk(true, vec![Pat::regex("ab(?-u:\\b)", 0), Pat::regex("ab(?-u:\\w)+!", 0)]);
+    // a short pattern that is a proper prefix of an anchored longer one
+    mk(true, vec![Pat::regex("a", 0), Pat::regex("ab$", 0), Pat::regex("c", 0)]);
+    mk(false, vec![Pat::regex("[0-9]", 0), Pat::regex("[0-9]x\\z", 0), Pat::skip(" ")]);
+    mk(true, vec![Pat::token("end", 0), Pat::regex("end if(?-u:\\b)", 0), Pat::regex("[a-z]+", 0).prio(1), Pat::skip(" ")]);
     // a loop state whose only other way out is the end-of-input edge (no unanchored sibling)
     mk(true, vec![Pat::regex("#+$", 0), Pat::token(",", 0), Pat::regex("[a-z]+", 0)]);
     mk(false, vec![Pat::regex("[0-9]+\\z", 0), Pat::token(";", 0)]);
@@ -783,11 +821,17 @@ pub fn mixed(rng: &mut Rng, name: &str, i: usize) -> Def {
 
 /// F9 callbacks: a small base definition with recording callbacks of every supported return type.
 pub fn f9_callbacks(rng: &mut Rng, name: &str) -> Def {
-    let mut def = match rng.below(4) {
+    let mut def = match rng.below(6) {
         0 => f2_keywords(rng, name),
         1 => f6_loops(rng, name),
+        2 | 3 => f5_look(rng, name),
         _ => f1_soup(rng, name),
     };
+    f9_decorate(rng, def)
+}
+
+/// Attach recording callbacks of every supported return type to an existing definition.
+pub fn f9_decorate(rng: &mut Rng, mut def: Def) -> Def {
     def.family = "F9".into();
     def.error = match rng.below(3) {
         0 => ErrKind::Unit,
